@@ -4,7 +4,7 @@ from nvlib import (Stats, Violation, shard_seed, load_known, run_cli)
 import nvbuild, fuzzdrv
 
 PROP = "C16"
-TARGETS = ["fuzz_asm", "naken_asm_san"]
+TARGETS = ["fuzz_asm", "naken_asm_san", "nvserve"]
 RULE = ("coverage-guided fuzzing (libFuzzer, 16 independent processes, ASan + UBSan bounds/div-by-zero/null, "
         "-timeout=10) of harness/fuzz_asm.cpp: option byte + source text -> two-pass in-process assembly exactly as "
         "main/naken_asm.cpp does it, from a file in a scratch directory that also holds a self-including and two "
@@ -97,11 +97,20 @@ def run(tier, seed, shard, nshards):
         finally:
             shutil.rmtree(d, ignore_errors=True)
 
+    if os.environ.get("NV_C16_PART", "") == "structured":          # development aid: the structured part only
+        import c16s
+        c16s.part(s, tier, seed, shard, nshards)
+        return s
     fuzzdrv.campaign(s, PROP, "fuzz_asm", tier, seed, shard, budget, lambda d: make_seeds(d, empty=(shard % 4 == 3)), DICT,
                      "/verif/corpus/C16/*", timeout_check=timeout_check,
                      what="naken_asm crashed / corrupted memory on this source (sanitizer report or signal)")
+    import c16s
+    c16s.part(s, tier, seed, shard, nshards)
     return s
 
 
 def replay(payload):
+    if payload.get("engine") == "c16s":
+        import c16s
+        return c16s.replay(payload)
     return fuzzdrv.replay(PROP, payload, "fuzz_asm")
